@@ -231,9 +231,15 @@ Proof.
   destruct x; unfold cadd; cbn [skips]; lia.
 Qed.
 
+(* the outcomes the parent can classify: a process that ended abnormally sent neither
+   `skipped` nor the completion notice; one that left through exit() after its completion
+   notice looks like (and is) a completed test *)
 Definition regular (s : suiteinfo) (t : test) : Prop :=
   match own_death s t with
-  | Some _ => has_skip (own_msgs s t) = false /\ no_compl (own_msgs s t)
+  | Some _ =>
+      if abnormal (own_msgs s t) (own_death s t)
+      then has_skip (own_msgs s t) = false /\ no_compl (own_msgs s t)
+      else exists m', own_msgs s t = m' ++ [MCompletion] /\ no_compl m'
   | None => True
   end.
 
@@ -251,7 +257,7 @@ Lemma own_eq s t :
   if tskip t then mkcnt 0 0 1 0
   else let k := count_msgs (own_msgs s t) in
        mkcnt (passes k) (failures k) (if has_skip (own_msgs s t) then 1 else 0)
-             (exceptions k + match own_death s t with Some _ => 1 | None => 0 end).
+             (exceptions k + (if abnormal (own_msgs s t) (own_death s t) then 1 else 0)).
 Proof.
   unfold own, own_msgs, own_death. destruct (tskip t); [reflexivity|].
   destruct (exec fw_init (test_steps s t)) as [[f m] d]. reflexivity.
@@ -309,18 +315,26 @@ Proof.
     rewrite <- Hm, <- Hd in *. clear Hm Hd.
     rewrite (deliver_fits cap m Hfit). cbn [length]. rewrite Nat.sub_0_r, firstn_all.
     unfold set_pipe. cbn [pipe c tot crumb pfw out].
-    destruct d as [d|].
-    + (* the test's process died: records up to the death, then one exception *)
-      destruct Hreg as [Hsk Hn].
-      erewrite (finish_test_nocompl (tid t) _ _ m (crumb p)); [ | exact Hn | reflexivity | reflexivity ].
-      rewrite Hsk. cbn [c tot crumb pipe pfw out app].
-      assert (Hc : cadd (credit m) (mkcnt 0 0 0 1) =
-                   mkcnt (passes (count_msgs m)) (failures (count_msgs m)) 0 (exceptions (count_msgs m) + 1)).
-      { unfold credit, skip_cnt. rewrite Hsk. cbn [negb andb]. apply cnt_eq; unfold cadd;
-          cbn [passes failures skips exceptions]; try lia. rewrite count_msgs_skips. lia. }
-      rewrite Hc. reflexivity.
-    + (* the test completed *)
-      destruct (exec_completes s t (pfw p) f' m Hwf He) as (m' & Hm & Hn & _). subst m.
+    assert (Hcompleted : forall m', m = m' ++ [MCompletion] -> no_compl m' -> abnormal m d = false ->
+              finish_test (tid t) (sig_text d)
+                {| c := c p; tot := tot p; crumb := tid t :: crumb p; pipe := m; pfw := pfw p;
+                   out := EChild (tid t) m :: EStartTest (tid t) :: out p |} =
+              {| c := cadd (c p)
+                      {| passes := passes (count_msgs m); failures := failures (count_msgs m);
+                         skips := if has_skip m then 1 else 0;
+                         exceptions := exceptions (count_msgs m) + (if abnormal m d then 1 else 0) |};
+                 tot := tot p; crumb := crumb p; pipe := []; pfw := pfw p;
+                 out := (ETestDone (tid t)
+                           {| passes := passes (count_msgs m); failures := failures (count_msgs m);
+                              skips := if has_skip m then 1 else 0;
+                              exceptions := exceptions (count_msgs m) + (if abnormal m d then 1 else 0) |}
+                           (clean {| passes := passes (count_msgs m); failures := failures (count_msgs m);
+                                     skips := if has_skip m then 1 else 0;
+                                     exceptions := exceptions (count_msgs m) + (if abnormal m d then 1 else 0) |})
+                         :: (if abnormal m d then [EIncomplete (tid t :: crumb p) (sig_text d)]
+                             else if has_skip m then [ESkipShown (tid t :: crumb p)] else [])
+                            ++ [EChild (tid t) m; EStartTest (tid t)]) ++ out p |}).
+    { intros m' Hm Hn Hab. subst m. rewrite Hab.
       erewrite (finish_test_completed (tid t) _ _ m' (crumb p)); [ | exact Hn | reflexivity | reflexivity ].
       cbn [c tot crumb pipe pfw out app].
       rewrite count_msgs_app, has_skip_app. cbn [has_skip existsb orb]. rewrite orb_false_r.
@@ -331,7 +345,23 @@ Proof.
                          (exceptions (cadd (count_msgs m') (count_msgs [MCompletion])) + 0)).
       { unfold credit, skip_cnt. cbn [negb andb count_msgs fold_right]. apply cnt_eq; unfold cadd, czero;
           cbn [passes failures skips exceptions]; try lia. rewrite count_msgs_skips. lia. }
-      rewrite Hc. destruct (has_skip m'); cbn [app]; reflexivity.
+      rewrite Hc. destruct (has_skip m'); cbn [app]; reflexivity. }
+    destruct d as [d|].
+    + destruct (abnormal m (Some d)) eqn:Hab.
+      * (* the test's process died: records up to the death, then one exception *)
+        destruct Hreg as [Hsk Hn].
+        erewrite (finish_test_nocompl (tid t) _ _ m (crumb p)); [ | exact Hn | reflexivity | reflexivity ].
+        rewrite Hsk. cbn [c tot crumb pipe pfw out app].
+        assert (Hc : cadd (credit m) (mkcnt 0 0 0 1) =
+                     mkcnt (passes (count_msgs m)) (failures (count_msgs m)) 0 (exceptions (count_msgs m) + 1)).
+        { unfold credit, skip_cnt. rewrite Hsk. cbn [negb andb]. apply cnt_eq; unfold cadd;
+            cbn [passes failures skips exceptions]; try lia. rewrite count_msgs_skips. lia. }
+        rewrite Hc. reflexivity.
+      * (* it left through exit() after the completion notice: a completed test *)
+        destruct Hreg as (m' & Hm & Hn). exact (Hcompleted m' Hm Hn eq_refl).
+    + (* the test completed *)
+      destruct (exec_completes s t (pfw p) f' m Hwf He) as (m' & Hm & Hn & _).
+      apply (Hcompleted m' Hm Hn eq_refl).
 Qed.
 
 (* in-process execution of a test that runs to its end *)
